@@ -61,6 +61,12 @@ impl Block for Midpointer {
             warn!("Midpointer got NaN");
         } else {
             let (mut a, mut b): (Vec<Float>, Vec<Float>) = v.iter().partition(|&t| *t > mean);
+            if a.is_empty() || b.is_empty() {
+                // Constant (or empty, or single sample) burst. There are no two
+                // levels to find the middle of, so pass it on as is.
+                self.dst.push(v, &[]);
+                return Ok(BlockRet::Again);
+            }
             a.sort_by(|a, b| a.partial_cmp(b).unwrap());
             b.sort_by(|a, b| a.partial_cmp(b).unwrap());
             let high = a[a.len() / 2];
